@@ -528,8 +528,37 @@ func precheckRegion(c Case, errs []string) bool {
 			structural = true
 		}
 	}
-	return structural && (strings.Contains(c.Doc, `"default":{"default":`) || strings.Contains(c.Doc, `"example":{"default":`) || strings.Contains(c.Doc, `"default":{"example":`) || strings.Contains(c.Doc, `"example":{"example":`) ||
-		strings.Contains(c.Doc, `"default":{`) && strings.Contains(c.Doc, `"items":`))
+	if !structural {
+		return false
+	}
+	doc, err := refmodel.Decode([]byte(c.Doc))
+	return err == nil && hasItemsInValue(doc)
+}
+
+// hasItemsInValue: some member named default / example holds an object with a member named items.
+func hasItemsInValue(v any) bool {
+	switch x := v.(type) {
+	case map[string]any:
+		for k, w := range x {
+			if k == "default" || k == "example" {
+				if m, ok := w.(map[string]any); ok {
+					if _, has := m["items"]; has {
+						return true
+					}
+				}
+			}
+			if hasItemsInValue(w) {
+				return true
+			}
+		}
+	case []any:
+		for _, w := range x {
+			if hasItemsInValue(w) {
+				return true
+			}
+		}
+	}
+	return false
 }
 
 func TestProp(t *testing.T)   { ev.Prop(t, true, genCase, check) }
